@@ -149,6 +149,11 @@ def c03(r):
 
 def c09(r):
     r.tlc_exhaustive("MCRetriever.tla", "Retriever.cfg", workers=4)
+    # deviations of the scan that must skip a DA height: moving on when the retries are used up, "from the future" read as "empty"
+    for cfg in ("Retriever_giveup.cfg", "Retriever_futureempty.cfg"):
+        ok, _ = r.tlc_exhaustive("MCRetriever.tla", cfg, workers=4, expect_ok=False)
+        if ok:
+            raise Inconclusive(cfg + " should fail (a deviation of the DA scan that skips a height)")
     t = r.drive("syncer", ["-arg", "retrieve"], name="syncer-retrieve")
     r.tlc_validate("SyncTrace", t, ["C09.", "C02.Halted", "C02.Converged", "C02.AppliedWhatArrived"])
     t = r.drive("syncer", ["-arg", "adversary"], name="syncer-adversary")
